@@ -1,6 +1,7 @@
 (* Driver for the float-realised real-number model (C12 correspondence only).
    input line:  P|nx ny nz|qx qy qz|x y z x y z ...          polygon (normal, q, vertices)
                 H|qx qy qz|nx ny nz : x y z x y z ... ; nx ny nz : ...      polyhedron (q; faces with normals)
+                E|x1 y1 x2 y2 theta                                       one edge of a centred polygon and one angle (C14)
    numbers are C99 hex floats; output: OK re im (hex floats). *)
 open Modelr
 let words s = List.filter (fun w -> w <> "") (String.split_on_char ' ' s)
@@ -21,6 +22,10 @@ let () =
                | [n; vs] -> (v3 (words n), verts (words vs)) | _ -> failwith "face") (String.split_on_char ';' faces) in
            let (re, im) = ffr_polyhedron (v3 (words q)) fs in
            Printf.printf "OK %h %h\n" re im
+         | ["E"; xs] ->
+           (match List.map fl (words xs) with
+            | [x1; y1; x2; y2; th] -> Printf.printf "OK %h %h\n" (ffr_edge_distance x1 y1 x2 y2 th) 0.0
+            | _ -> print_string "BADLINE\n")
          | _ -> print_string "BADLINE\n")
       with Failure _ -> print_string "BADLINE\n")
     done
